@@ -629,7 +629,10 @@ def _main(check, check_file):
     print(f"[{check.prop}] seed={seed} tier={tier} workers={workers} tree={boot.info().get('tree_hash')}", flush=True)
     nwarm = 0 if getattr(check, "no_warm", False) else warm(getattr(check, "warm_extra", None))
     if getattr(check, "warm_refinement", False):
-        nwarm += warm_refinement_variants(approx=getattr(check, "warm_approx_refinement", False))
+        try:
+            nwarm += warm_refinement_variants(approx=getattr(check, "warm_approx_refinement", False))
+        except Exception as e:  # warming only saves time: a renamed kernel must not stop the check
+            print(f"[{check.prop}] refinement warm-up skipped: {type(e).__name__}: {e}", flush=True)
     print(f"[{check.prop}] boot+warm {time.time()-t0:.1f}s ({nwarm} signatures)", flush=True)
 
     n = args["n"] or check.budgets[tier]
